@@ -79,7 +79,16 @@ ClosureLoop(lk, cap) ==
              << [k |-> "mkfs"],
                 [k |-> lk, v |-> "i", n |-> 3, lab |-> "", body |-> body],
                 [k |-> "callall"], [k |-> "printg"] >>)
+\* a boolean DEFINED at the top level of main (in a session: a package-level symbol) from a comparison with nil,
+\* nil on either side, of a map made / nil: the type of the symbol is that of the comparison, not of an operand
+NilDef(mf, op, form) ==
+    WProg("", <<>>,
+          << [k |-> "mkmap", s |-> "m1", form |-> mf, ks |-> <<>>, es |-> <<>>],
+             [k |-> "bdef", s |-> "b1", c |-> [k |-> "isnil", s |-> "m1", sort |-> "map", op |-> op, form |-> form]],
+             [k |-> "if", c |-> [k |-> "bvar", s |-> "b1"], th |-> <<PrintS(Lit(1))>>, el |-> <<PrintS(Lit(2))>>],
+             [k |-> "printg"] >>)
 SessFamily == {ClosureLoop(lk, cap) : lk \in LoopKinds, cap \in Captures}
+              \cup {NilDef(mf, op, form) : mf \in {"make", "nil"}, op \in {"eq", "ne"}, form \in {"xn", "nx"}}
 InitSessFam == /\ prog \in SessFamily /\ res = Run(prog) /\ sess = SessionRun(prog)
                /\ cut \in {1..(NItems(prog) - 1), 1..NDecl}
                /\ entry \in {"eval", "compile-execute"}
